@@ -47,6 +47,10 @@ CHECKS["C13"] = dict(level="model_checking", ref="DESIGN.md §5 C13, §9", thoro
    text="every CSV text of <= 4 (5 thorough) symbols over {a 1 0 - + . e , quote space LF CRLF} plus a structured family (36 field spellings incl. numeric look-alikes and 64-bit boundaries, quoted fields, 1-3 columns x 1-3 rows, LF/CRLF) x header flag is a state; an own RFC 4180 reader and the property's field classes map it to a JSON document (don't-care where the property does not pin the spelling); for each of 16 distinguishing schemas validate_csv_from_str must give the verdict the real JSON validator gives on the mapped document",
    note="trusts the harness' RFC 4180 reader and field classifier (mc/src/c13.rs); texts outside RFC 4180 and unpinned spellings (+3, 007, '1.', '.5') are don't-care",
    tech="bounded-exhaustive enumeration of CSV texts + reference mapping conformance")
+CHECKS["C04"] = dict(level="model_checking", ref="DESIGN.md §5 C04, §9", thorough=True,
+   text="explicit-state differential exploration: a state is (schema, JSON-model value); schemas are every type term of weight <= 3 (4 thorough) over the C01 core alphabet, the C01 map family and a shared-feature family (generics, sockets, unwrap, group-to-choice, named / float range bounds, 14 control operators, recursion, nested occurrences, 25 prelude and literal types in 6 positions); values are the JSON universe plus 64-bit boundary integers, integral / huge floats, non-ASCII, date and URI texts; the two transitions of a state are the real JSON validation of its text and the real CBOR validation of its preferred encoding, which must agree (int/float re-readings of the value are tolerated as C01 states)",
+   note="no model: purely differential between the two real validators; .bits and other CBOR-only operators are outside the shared set",
+   tech="bounded-exhaustive enumeration of (schema, value) states, differential oracle between the two validators")
 NA = {}
 def main():
     props=[json.loads(l)["id"] for l in open("/verif/properties.jsonl")]
